@@ -434,7 +434,13 @@ static void scaleModelCase(Rng &rng, CaseResult &r, bool dyadic) {
   if (r.dumpOnly) return;
   NetModel a = build(m, 1.0f), b = build(m, k);
   std::vector<float> sa, sb;
-  if (api == 0) { sa = a.solveStar(P); sb = b.solveStar(P); }
+  if (api == 0) {
+    sa = a.solveStar(P); sb = b.solveStar(P);
+    // the same model object solved again, and a copy of it, give the same bits (no state is carried between solves)
+    NetModel a2 = a;
+    std::vector<float> again = a.solveStar(P), copy = a2.solveStar(P);
+    if (!bitEqual(sa, again) || !bitEqual(sa, copy)) r.fail("C17:second-solve-of-the-same-model-differs", "solveStar on the same NetModel object (or a copy of it) gives different bits the second time");
+  }
   else if (api == 1) { sa = a.solve(pl, P); sb = b.solve(pl, P); }
   else {
     std::vector<float> s2 = strength;
